@@ -75,7 +75,26 @@ def plan(prop, tier):
     """list of (name, cfg, rand_cfg) for this property"""
     F = seq_families(tier)
     if prop in GENERIC:
-        return [(n, c, r) for n, (c, r) in F.items()]
+        fams = [(n, c, r) for n, (c, r) in F.items()]
+        if prop == "C17":
+            # C17 only: upstreams that greet later than the subscribing call, for every operator (the other
+            # properties quantify over late greeters for merge! only)
+            lb = dict(maxData=1, maxTop=3 if tier == "quick" else 4, maxPull=1, allowFail=True)
+            for kind, par in (("map", dict(f="inc")), ("filter", dict(p="even")), ("take", dict(n=1)), ("skip", dict(n=1))):
+                g = scen.unary(kind, **par)
+                g["nodes"][0]["late"] = True
+                fams.append((kind + "_lateup", scen.with_bounds(g, kind, **lb), None))
+            for kind in ("concat", "combine"):
+                fams.append((kind + "2_lateup", scen.with_bounds(scen.nary(kind, 2, late=True), kind, **lb), None))
+            g = scen.flatten_g(2)
+            for n in g["nodes"]:
+                if n["kind"].startswith("puppet"):
+                    n["late"] = True
+            fams.append(("flatten2_lateup", scen.with_bounds(g, "flatten", **lb), None))
+            g = scen.share_g()
+            g["nodes"][0]["late"] = True
+            fams.append(("share2_lateup", scen.with_bounds(g, "share", sinks=["probe", "probe"], **lb), None))
+        return fams
     if prop == "C07":
         return [(n, c, r) for n, (c, r) in F.items() if c["fam"] in ("map", "filter", "scan", "take", "skip")]
     own = {"C08": "merge", "C09": "concat", "C10": "combine", "C11": "flatten", "C12": "share"}
